@@ -20,8 +20,11 @@ git diff > $root/$name.applied.diff
 echo "== build" >>$log
 if ! go build ./... >>$log 2>&1; then echo "RESULT $name: does not build"; cd /; git -C /repo worktree remove --force $wt; exit 4; fi
 echo "== suite with change" >>$log
+if [ "${SKIP_SUITE:-0}" = 1 ]; then echo "ok (skipped: suite already confirmed for this patch)" > $root/$name.suite.log; else
 ns "go test -vet=off -count=1 -timeout 25m ./... " > $root/$name.suite.log 2>&1
+fi
 suite=pass
+if [ "${SKIP_SUITE:-0}" = 1 ]; then suite="(confirmed in an earlier run)"; fi
 if grep -q "^FAIL\|^--- FAIL\|^panic:" $root/$name.suite.log; then
   failed=$(grep "^--- FAIL" $root/$name.suite.log | awk '{print $3}' | sort -u | tr '\n' ' ')
   echo "first run failures: $failed" >>$log
@@ -41,5 +44,6 @@ ns "timeout 600 go test -vet=off -count=1 -timeout 9m -run '$run' ./$pkg/" > $ro
 git checkout -- . ; 
 echo "== demo without change" >>$log
 ns "timeout 600 go test -vet=off -count=1 -timeout 9m -run '$run' ./$pkg/" > $root/$name.demo_without.log 2>&1; dwo=$?
-echo "RESULT $name: suite=$suite demo_with_change_exit=$dw (want !=0) demo_without_change_exit=$dwo (want 0)"
+bf=""; grep -q "build failed" $root/$name.demo_with.log $root/$name.demo_without.log && bf=" DEMO-BUILD-FAILED"
+echo "RESULT $name:$bf suite=$suite demo_with_change_exit=$dw (want !=0) demo_without_change_exit=$dwo (want 0)"
 cd /; git -C /repo worktree remove --force $wt
